@@ -48,6 +48,11 @@ def handle : List String → Option String
   | "c17.ltel2g" :: rest => do
     let (l, o) ← run (do let l ← v3P; let o ← listOf rat; pure (l, o)) rest
     some ("ok " ++ showRats (lteLocal2Global l o))
+  | "c17.diagshortcut" :: rest => do
+    -- shear-free tensor diag(a) with the descending order (i, j, k) of its diagonal: column frame of coordinate axes
+    let (a, i, j, k) ← run (do let a ← v3P; let i ← nat; let j ← nat; let k ← nat; pure (a, i, j, k)) rest
+    let p := diagShortcut true a i j k
+    some (String.intercalate " " ["ok", showV p.vals, showV p.d0, showV p.d1, showV p.d2])
   | "c17.align" :: rest => do
     let (cells, ms) ← run (do let c ← nat; let ms ← listOf (listOf entryP); pure (c, ms)) rest
     some ("ok " ++ showRat (dummyScale cells ms) ++ " " ++ showList showSp (alignNnz cells ms))
